@@ -7,6 +7,15 @@ HERE = os.path.dirname(os.path.dirname(os.path.abspath(__file__)))
 
 # property id -> (technique, level text, level note, design ref) ; only built checks are listed
 CHECKS = {
+    'C20': ('explicit-state level-synchronous breadth-first search over operation histories on the real PjRpcMocker (patching real '
+            'sync and async clients) with canonical state hashing, lock-step with a dict-of-lists reference model plus a one-rotation '
+            'look-ahead oracle in every state',
+            'All histories of <= 4/5 operations over add (16 variants) / replace at each index / remove / remove endpoint / call positional, '
+            'named, unpatched method, id 0 / notification / batches over method pairs, 2 endpoints x 2 methods, passthrough off and on: '
+            'every answer (round-robin, once, request id, result / error / callback value, -32601, refusal / passthrough, element-wise '
+            'batches), the recorded calls and the next full rotation of answers equal the reference; sync and async agree.',
+            'trusted: reference model in props/c20.py; state merging by patch table is made sound by the look-ahead probe and the table-shape discriminator',
+            'DESIGN.md section 5, C20'),
     'C12': ('exhaustive enumeration of middleware stacks x error-handler tables x request kinds on the real dispatchers, lock-step with '
             'the reference server extended by an explicit middleware / handler layer; event logs compared',
             'All stacks of 0..3/4 middlewares over {pass-through, short-circuit, request-rewriting, response-rewriting} x 9 handler tables '
